@@ -1,0 +1,90 @@
+//! Verification hooks. Only compiled with `--cfg regress_verif`; never part of a normal build.
+//! Re-exports internal types for an external correspondence harness and provides a step counter.
+
+#[cfg(not(feature = "std"))]
+use alloc::vec::Vec;
+use core::sync::atomic::{AtomicU64, Ordering};
+
+pub use crate::bytesearch::{AsciiBitmap, ByteArraySet, ByteBitmap, ByteSet};
+pub use crate::codepointset::{CodePointSet, Interval};
+pub use crate::insn::{CompiledRegex, Insn, LoopFields, StartPredicate};
+pub use crate::ir::{AnchorType, Node, Quantifier, Regex as IrRegex};
+pub use crate::types::BracketContents;
+
+/// Number of interpreter steps taken since the last reset.
+pub static STEPS: AtomicU64 = AtomicU64::new(0);
+/// Step budget; exceeding it panics (so that a runaway search is a catchable event).
+pub static BUDGET: AtomicU64 = AtomicU64::new(u64::MAX);
+
+#[inline(always)]
+pub fn tick() {
+    let n = STEPS.fetch_add(1, Ordering::Relaxed) + 1;
+    if n > BUDGET.load(Ordering::Relaxed) {
+        panic!("regress_verif: step budget exceeded");
+    }
+}
+
+pub fn reset_steps(budget: u64) {
+    STEPS.store(0, Ordering::Relaxed);
+    BUDGET.store(budget, Ordering::Relaxed);
+}
+
+pub fn steps() -> u64 {
+    STEPS.load(Ordering::Relaxed)
+}
+
+pub fn interval(first: u32, last: u32) -> Interval {
+    Interval { first, last }
+}
+pub fn interval_bounds(iv: Interval) -> (u32, u32) {
+    (iv.first, iv.last)
+}
+pub fn cps_contains(s: &CodePointSet, cp: u32) -> bool {
+    s.contains(cp)
+}
+pub fn cps_remove(s: &mut CodePointSet, ivs: &[Interval]) {
+    s.remove(ivs)
+}
+pub fn cps_intersect(s: &mut CodePointSet, ivs: &[Interval]) {
+    s.intersect(ivs)
+}
+pub fn fold_code_point(c: u32, unicode: bool) -> u32 {
+    crate::unicode::fold_code_point(c, unicode)
+}
+pub fn unfold_char(c: u32) -> Vec<u32> {
+    crate::unicode::unfold_char(c)
+}
+pub fn unfold_uppercase_char(c: u32) -> Vec<u32> {
+    crate::unicode::unfold_uppercase_char(c)
+}
+pub fn expand_code_point(c: u32, icase: bool, unicode: bool) -> Vec<u32> {
+    crate::unicode::expand_code_point(c, icase, unicode)
+}
+pub fn add_icase_code_points(s: CodePointSet) -> CodePointSet {
+    crate::unicode::add_icase_code_points(s)
+}
+pub fn nonascii_folds_to_ascii_word_char(c: u32) -> bool {
+    crate::unicodetables::nonascii_folds_to_ascii_word_char(c)
+}
+/// Resolve a `\p{name=value}` / `\p{value}` escape as the parser does.
+/// Returns (is_string_set, intervals, strings).
+pub fn property_lookup(
+    name: Option<&str>,
+    value: &str,
+    unicode_sets: bool,
+) -> Option<(Vec<(u32, u32)>, Vec<Vec<u32>>)> {
+    use crate::unicode::*;
+    let pname = match name {
+        Some(n) => Some(unicode_property_name_from_str(n)?),
+        None => None,
+    };
+    match unicode_property_from_str(value, pname, unicode_sets)? {
+        PropertyEscapeKind::CharacterClass(ivs) => Some((
+            ivs.iter().map(|iv| (iv.first, iv.last)).collect(),
+            Vec::new(),
+        )),
+        PropertyEscapeKind::StringSet(ss) => {
+            Some((Vec::new(), ss.iter().map(|s| s.to_vec()).collect()))
+        }
+    }
+}
